@@ -28,11 +28,13 @@ import (
 //	r4     answered 16 minutes ago and queried us just now (good by the BEP 5 rule)
 //	n4/n6  only ever queried us (never responded)
 //	b4     answered once, then failed a questionable-node ping (bad)
+//	m4     like g4, but its IPv4 address reaches the node in 16-byte (IPv4-mapped) form
 //	u4     queried us just now, then sent an unsolicited response (unknown t): never answered us
 var c09Options = map[string][]string{
 	"-":    {},
 	"g":    {"g4"},
 	"gg6":  {"g4", "g6"},
+	"gm":   {"m4", "g6", "m4"},
 	"mix":  {"g4", "q4", "b4", "n4", "r4", "u4"},
 	"six":  {"g6", "n6", "g6"},
 	"g5":   {"g4", "g4", "g4", "g4", "g4"},
@@ -41,7 +43,7 @@ var c09Options = map[string][]string{
 	"old":  {"q4", "q4", "n4", "u4"},
 	"g6x8": {"g6", "g6", "g6", "g6", "g6", "g6", "g6", "g6"},
 }
-var c09OptionOrder = []string{"-", "g", "gg6", "mix", "six", "g5", "g33", "g8", "old", "g6x8"}
+var c09OptionOrder = []string{"-", "g", "gg6", "gm", "mix", "six", "g5", "g33", "g8", "old", "g6x8"}
 var c09Buckets = []int{0, 1, 2, 5, 159}
 
 type c09Entry struct {
@@ -73,6 +75,9 @@ func c09ParseTable(s string) (es []c09Entry, err error) {
 				addr = &net.UDPAddr{IP: ip, Port: 6000 + n}
 			} else {
 				addr = sim.UDP4(50, byte(b), 0, byte(i+1), 5000+n)
+				if k == "m4" {
+					addr = &net.UDPAddr{IP: addr.IP.To16(), Port: addr.Port}
+				}
 			}
 			idn := i
 			if b == 159 {
@@ -142,7 +147,7 @@ func (y *c09Sys) build(es []c09Entry) {
 	synctest.Wait()
 	for _, e := range es {
 		switch e.kind {
-		case "g4", "g6":
+		case "g4", "g6", "m4":
 			y.ping(e, true)
 		case "n4", "n6":
 			y.queryFrom(e)
